@@ -5,7 +5,7 @@ import re
 from .. import rails, colang2
 from ..coflow import TOP, Walker
 from ..pycfg import CFG, walk_no_nested, contained, enclosing_trys, broad_handler, handler_reraises
-from ..source import AnalysisError, find_function, first_line, src, functions, qualname
+from ..source import atoms, atom_key, truth, side, conjuncts, linear, AnalysisError, find_function, first_line, src, functions, qualname
 from . import _railrules
 
 DISP = "nemoguardrails/actions/action_dispatcher.py"
@@ -178,14 +178,23 @@ def b_runtimes(ctx):
         res, st = defs[0][1], defs[0][2]
         # the replacement test
         tests = []
+        conditional = []
         for n in cfg.nodes:
-            if n.kind == "test" and isinstance(n.stmt, ast.If) and isinstance(n.ast, ast.Compare) and isinstance(n.ast.left, ast.Name) \
-                    and n.ast.left.id == st and isinstance(n.ast.ops[0], ast.Eq) and isinstance(n.ast.comparators[0], ast.Constant) \
-                    and n.ast.comparators[0].value == "failed":
-                repl = [s for s in n.stmt.body if isinstance(s, ast.Assign) and isinstance(s.targets[0], ast.Name) and s.targets[0].id == res
+            if n.kind == "test" and isinstance(n.stmt, ast.If) and n.ast is not None:
+                key = "%s == 'failed'" % st
+                v = truth(n.ast, {key: True})
+                mentions = any(atom_key(a_)[0] == atom_key(ast.parse(key, mode="eval").body)[0] for a_ in atoms(n.ast))
+                if not mentions:
+                    continue
+                # the side a failed action takes; if other conjuncts can still divert it (v is None) the replacement is not guaranteed: the body is inspected anyway and
+                # the dominance obligation below reports the conditional replacement
+                blk = side(n.stmt, v) if v is not None else n.stmt.body
+                repl = [s for s in blk if isinstance(s, ast.Assign) and isinstance(s.targets[0], ast.Name) and s.targets[0].id == res
                         and "_internal_error_action_result" in src(s.value)]
                 if repl:
                     tests.append(n)
+                    if v is None:
+                        conditional.append(n)
         ctx.check("C03.b.failed-test", rel, unit, "if %s == 'failed'" % st, bool(tests),
                   "a test `%s == \"failed\"` replaces `%s` by the internal-error action result" % (st, res), line=fn.lineno)
         if not tests:
@@ -195,7 +204,7 @@ def b_runtimes(ctx):
         uses = [n for n in cfg.nodes if n.ast is not None and n.kind in ("stmt", "test") and n not in repl_nodes
                 and any(isinstance(x, ast.Name) and x.id == res and isinstance(x.ctx, ast.Load) for x in walk_no_nested(n.ast))]
         for d, _, _ in defs:
-            bad = [u for u in uses if u in cfg.reachable([d]) and u is not d and not cfg.must_pass(d, u, T)]
+            bad = [u for u in uses if u in cfg.reachable([d]) and u is not d and (not cfg.must_pass(d, u, T - set(conditional)))]
             ctx.check("C03.b.failed-dominates", rel, unit, first_line(d.ast), not bad,
                       "every use of `%s` after `%s` passes the `status == \"failed\"` replacement first" % (res, first_line(d.ast, 50)) if not bad else
                       "`%s` is used at line %s (`%s`) on a path that bypasses the failed-status replacement: a failed action's partial/None result is treated as a normal result" % (
@@ -214,11 +223,20 @@ def b_runtimes(ctx):
     ok = False
     for n in ast.walk(fn):
         if isinstance(n, ast.If) and "InternalSystemActionFinished" in src(n.test):
-            for m in n.body:
-                if isinstance(m, ast.If) and isinstance(m.test, ast.Compare) and "status" in src(m.test.left) \
-                        and isinstance(m.test.ops[0], ast.NotEq) and isinstance(m.test.comparators[0], ast.Constant) and m.test.comparators[0].value == "success" \
-                        and isinstance(m.body[0], ast.Return) and isinstance(m.body[0].value, ast.Constant) and m.body[0].value.value is False:
-                    ok = True
+            for m in ast.walk(n):
+                # a test on the event's status such that, when the status is not "success", the side taken returns False first thing (either spelling / polarity)
+                if isinstance(m, ast.If):
+                    st = [a for a in atoms(m.test) if isinstance(a, ast.Compare) and len(a.ops) == 1 and "status" in src(a.left)
+                          and isinstance(a.comparators[0], ast.Constant) and a.comparators[0].value == "success"]
+                    if not st:
+                        continue
+                    key, _ = atom_key(st[0])
+                    v = truth(m.test, {key: False})
+                    if v is None:
+                        continue
+                    blk = side(m, v)
+                    if blk and isinstance(blk[0], ast.Return) and isinstance(blk[0].value, ast.Constant) and blk[0].value.value is False:
+                        ok = True
     ctx.check("C03.b.v1-success-only", FL1, "_is_match", "status != 'success' => no match", ok,
               "Colang 1 flows advance past `execute` only on status == 'success', so a failed rail action never lets the rail flow continue to 'allowed'", line=fn.lineno)
 
